@@ -181,8 +181,16 @@ SUBMODULES = [
 ]
 # noinspection PyDictCreation
 FUNCTIONS = {}
-FUNCTIONS['ARRAY'] = lambda *args: np.asarray(args, object).view(Array)
-FUNCTIONS['ARRAYROW'] = lambda *args: np.asarray(args, object).view(Array)
+
+
+
+def _xarray(*args):
+    # Elements computed by an operator (e.g., `-3`) are 0-d arrays: unwrap them.
+    return np.asarray(tuple(map(convert_noshp, args)), object).view(Array)
+
+
+FUNCTIONS['ARRAY'] = _xarray
+FUNCTIONS['ARRAYROW'] = _xarray
 
 
 def get_error(*vals):
